@@ -278,6 +278,20 @@ void mmd_print_localized_char_latex(DString * out, unsigned short type, scratch_
 }
 
 
+/// Print a URL as the first argument of \href: hyperref reads \{ and \} there as the
+/// literal characters, whereas a bare brace would end (or extend) the argument
+static void mmd_print_url_latex(DString * out, const char * url) {
+	while (*url != '\0') {
+		if (*url == '{' || *url == '}') {
+			print_char('\\');
+		}
+
+		print_char(*url);
+		url++;
+	}
+}
+
+
 void mmd_export_link_latex(DString * out, const char * source, token * text, link * link, scratch_pad * scratch) {
 	char * temp_char;
 
@@ -307,7 +321,9 @@ void mmd_export_link_latex(DString * out, const char * source, token * text, lin
 
 			return;
 		} else {
-			printf("\\href{%s}", link->url);
+			print_const("\\href{");
+			mmd_print_url_latex(out, link->url);
+			print_const("}");
 		}
 	} else {
 		print_const("\\href{}");
@@ -329,7 +345,9 @@ void mmd_export_link_latex(DString * out, const char * source, token * text, lin
 	print_const("}");
 
 	// Reprint as footnote for printed copies
-	printf("\\footnote{\\href{%s}{", link->url);
+	print_const("\\footnote{\\href{");
+	mmd_print_url_latex(out, link->url);
+	print_const("}{");
 	mmd_print_string_latex(out, link->url);
 	print_const("}}");
 }
@@ -1232,7 +1250,7 @@ void mmd_export_token_latex(DString * out, const char * source, token * t, scrat
 					}
 				}
 
-				print(temp_char);
+				mmd_print_url_latex(out, temp_char);
 				print_const("}{");
 				mmd_print_string_latex(out, temp_char);
 				print_const("}");
